@@ -4,6 +4,8 @@ import (
 	"fmt"
 	"sort"
 	"strings"
+
+	"verif/gm"
 	"testing"
 
 	"pgregory.net/rapid"
@@ -26,7 +28,7 @@ func genCase(t *rapid.T) Case {
 	c := Case{Dialect: d, Base: c02.Base(d), Scenario: rapid.SampledFrom([]string{"create", "drop", "modify", "modify", "modify"}).Draw(t, "scenario"),
 		Qualifier: rapid.SampledFrom([]string{"none", "empty", "empty", "custom", "custom"}).Draw(t, "qualifier"), Mode: rapid.IntRange(0, 3).Draw(t, "mode")}
 	if c.Scenario == "modify" {
-		sites := c02.Sites(d, c.Base)
+		sites := tableSites(d, c.Base)
 		perm := rapid.Permutation(sites).Draw(t, "sites")
 		n := rapid.IntRange(1, 6).Draw(t, "nedits")
 		var chosen []c02.Site
@@ -102,7 +104,7 @@ func TestCheck(t *testing.T) {
 						}
 					}
 				}
-				for _, s := range c02.Sites(d, base) {
+				for _, s := range tableSites(d, base) {
 					i++
 					if !col.Mine(i) {
 						continue
@@ -141,4 +143,16 @@ func TestCheck(t *testing.T) {
 
 func TestReplay(t *testing.T) {
 	ev.ReplayFile(t, "C16", func(_ string, c Case) error { _, err := checkCase(c); return err })
+}
+
+// tableSites: the catalogue without the edits of the schema's own attributes. A ModifySchema is refused in a schema-scoped
+// plan by contract ("is not allowed when migration plan is scoped to one schema"); the spans cover that refusal.
+func tableSites(d string, base gm.Schema) []c02.Site {
+	var out []c02.Site
+	for _, s := range c02.Sites(d, base) {
+		if !strings.HasPrefix(s.E.Kind, "schema-") {
+			out = append(out, s)
+		}
+	}
+	return out
 }
